@@ -222,3 +222,16 @@ _rep("C19", "AY on/off, both machines and three drain policies;", "AY on/off, bo
 _rep("C20", "VtxTrace checks every call's", "and rewind()/set_frame() between calls; VtxTrace checks every call's")
 _rep("C16", "under 18 drivings", "under 20 drivings")
 _rep("C16", "sound off, audio never drained,", "sound off, AY off, both switched at run time, audio never drained,")
+
+_rep("C06", "followed by a probe of each window;", "followed by a probe of each window; the first steps of every history probe the power-on map before any paging write;")
+_rep("C08", "single-byte", "single-byte") if False else None
+_rep("C11", "The ROM's own LD-BYTES is run", "On the whole machine (hook verif_tape) tapes are played through the emulator's API while the CPU runs one of five instruction mixes incl. HALT between interrupts, the EAR level sampled after every instruction (measuring slack of 28 T as a parameter of the observer). The ROM's own LD-BYTES is run")
+_rep("C13", "other-border ones, with every", "other-border ones (two thirds of the saved machines run known code first, one third sit in DI; HALT when saved, and the restored machine must continue for four instructions exactly as a twin of the saved one), with every")
+_rep("C14", "SnapshotTrace requires:", "SZX files carry any frame clock, half of the receivers are stopped in mid-frame and the frame the machine continues is sampled where the beam comes after the load. SnapshotTrace requires:")
+_rep("C15", "", "") if False else None
+_rep("C18", "gating for random register sets.", "gating for random register sets, and in register histories (tone periods written in halves through boundary values) the exact length of every stretch of equal level.")
+_rep("C12", "The same is validated on the real player for random command histories at every phase of real tapes.", "The same is validated on the real player for random command histories at every phase of real tapes, and on the whole machine: decks driven through the emulator's own play_tape / stop_tape / rewind_tape while a program runs, into the automatic stop and through a second pass.")
+_rep("C15", "(5134 shapes:", "(more than 5000 shapes:")
+_rep("C15", "gzip wrappers)", "gzip wrappers, compressed pages that inflate to more than a page, more than 64 KiB, 16 MiB)")
+_rep("C15", "with an asset that fails at every request index", "with an asset that fails at every request index, with both end-of-data conventions of a host asset (error / read of 0 bytes)")
+_rep("C15", "memory <= 8 MiB + 3000 x input.", "memory <= 8 MiB + 3000 x input for the formats that wrap a compressed stream whose whole contents are needed (gzip, VTX) and <= 4 MiB + 8 x input for the others.")
